@@ -245,6 +245,7 @@ impl<M: RawMutex + 'static> System for Sys<M> {
                     r.push(structcheck::waker_code(n.waker, G, i));
                     r.push(snap.queues[0].iter().position(|q| q.addr == n.addr).map_or(200, |p| p as u8));
                     r.push(s.fut.get().is_terminated() as u8);
+                    r.extend(harness::norm(&s.fut.get().verif_node_debug()));
                     recs.push(r);
                 }
             }
@@ -256,6 +257,7 @@ impl<M: RawMutex + 'static> System for Sys<M> {
             v.extend(r);
             v.push(253);
         }
+        v.extend(harness::norm(&self.event.verif_debug()));
         v
     }
 
